@@ -117,6 +117,9 @@ func expected(b []byte, off int, m string) (ok bool, num uint64, str []byte, con
 
 // ----------------------------------------------------------------------------- single call
 
+// chunkBuffer selects a *bytes.Buffer as the source (see runCall).
+const chunkBuffer = -100
+
 type CallCase struct {
 	Input  vh.B   `json:"input"`
 	Method string `json:"method"`
@@ -130,6 +133,21 @@ func runCall(c CallCase) (outcome, int) {
 		br := bytes.NewReader(c.Input)
 		got := call(cbor.NewDecoder(br), c.Method)
 		return got, len(c.Input) - br.Len()
+	}
+	if c.Chunk == chunkBuffer {
+		// a *bytes.Buffer over the caller's own slice (what the bundle reader passes for section and
+		// header parsing); afterwards the caller appends to the result and reuses its input slice:
+		// a result is the caller's to keep, the input the caller's to recycle
+		backing := append(make([]byte, 0, len(c.Input)+32), c.Input...)
+		bb := bytes.NewBuffer(backing)
+		got := call(cbor.NewDecoder(bb), c.Method)
+		pos := len(c.Input) - bb.Len()
+		keep := got.str
+		_ = append(keep, 0xEE, 0xEE, 0xEE, 0xEE, 0xEE, 0xEE, 0xEE, 0xEE)
+		for i := range backing[:cap(backing)][:len(c.Input)+32] {
+			backing[:cap(backing)][i] ^= 0x5A
+		}
+		return got, pos
 	}
 	rd := &posReader{b: c.Input, chunk: c.Chunk}
 	if c.Chunk == -2 || c.Chunk == -3 { // plain reader that hands out its last bytes together with io.EOF (whole / 1-byte reads)
@@ -278,7 +296,7 @@ func TestExhaustiveHeads(t *testing.T) {
 			}
 			for _, in := range inputs {
 				for _, m := range methods {
-					for _, chunk := range []int{0, 1, -1, -2, -3} {
+					for _, chunk := range []int{0, 1, -1, -2, -3, chunkBuffer} {
 						if (chunk == 1 || chunk == -3) && len(in) > 300 {
 							continue
 						}
@@ -455,7 +473,19 @@ var streamProp = vh.Define("C12", "stream", func(c StreamCase, r *vh.R) {
 	b := c.bytes()
 	var src io.Reader
 	pos := func() int { return 0 }
-	if c.Chunk == -1 {
+	recycle := func() {}
+	if c.Chunk == chunkBuffer {
+		backing := append(make([]byte, 0, len(b)+32), b...)
+		bb := bytes.NewBuffer(backing)
+		src, pos = bb, func() int { return len(b) - bb.Len() }
+		recycle = func() {
+			full := backing[:cap(backing)]
+			for i := range full {
+				full[i] ^= 0x5A
+			}
+		}
+		r.Class("source:bytes.Buffer")
+	} else if c.Chunk == -1 {
 		br := bytes.NewReader(b)
 		src, pos = br, func() int { return len(b) - br.Len() }
 	} else {
@@ -511,7 +541,13 @@ var streamProp = vh.Define("C12", "stream", func(c StreamCase, r *vh.R) {
 		okCalls++
 		heldGot = append(heldGot, got.str)
 		heldWant = append(heldWant, append([]byte{}, str...))
+		if c.Chunk == chunkBuffer && len(got.str) > 0 {
+			// the caller extends the value it was given (it owns it): this must not reach the
+			// octets of the items that are still to be decoded
+			_ = append(got.str, 0xEE, 0xEE, 0xEE, 0xEE, 0xEE, 0xEE, 0xEE, 0xEE, 0xEE)
+		}
 	}
+	recycle() // the caller reuses its input buffer: values already returned are the caller's own copies
 	// values returned earlier must not change when later items are decoded with the same Decoder
 	for i := range heldGot {
 		if !bytes.Equal(heldGot[i], heldWant[i]) {
@@ -592,7 +628,7 @@ func TestPropStream(t *testing.T) {
 		if rapid.IntRange(0, 3).Draw(t, "extra") == 0 {
 			c.Calls = append(c.Calls, rapid.SampledFrom(methods).Draw(t, "extracall"))
 		}
-		c.Chunk = rapid.SampledFrom([]int{0, 0, 1, 3, -1, -1, -2, -3, -5}).Draw(t, "chunk")
+		c.Chunk = rapid.SampledFrom([]int{0, 0, 1, 3, -1, -1, -2, -3, -5, chunkBuffer, chunkBuffer}).Draw(t, "chunk")
 		if rapid.IntRange(0, 3).Draw(t, "docut") == 0 {
 			c.Cut = rapid.IntRange(1, 12).Draw(t, "cut")
 		}
